@@ -267,6 +267,8 @@ def r4(ctx):
                  g.atom()[0][0] == 'bin' and has(g.atom()[0], Call('BatchLimit::limit'))]
         okp = False
         why = 'no fill condition found'
+        if not conds:
+            raise AnchorMissing('the condition of the fill loop of build_batch (a comparison of BatchLimit::limit() inside the loop)')
         if conds:
             t0 = core(conds[0].atom()[0])
             budget = ('bin', 'Mul', ('arg', 6, ANY), ('arg', 8, ANY))
